@@ -9,8 +9,10 @@ use ark_bulletproofs::r1cs::R1CSProof;
 use serde_json::json;
 
 pub fn cfg_for(sub: &str) -> GenCfg {
-    if sub.ends_with("/large") {
-        GenCfg { max_ops1: 30, max_closures: 6, max_ops2: 12, max_commits: 14, big_gates: 130, max_terms: 12 }
+    if sub.ends_with("/wide") {
+        GenCfg { max_ops1: 700, max_closures: 2, max_ops2: 8, max_commits: 300, big_gates: 0, max_terms: 8, wide: true }
+    } else if sub.ends_with("/large") {
+        GenCfg { max_ops1: 30, max_closures: 6, max_ops2: 12, max_commits: 14, big_gates: 130, max_terms: 12, wide: false }
     } else {
         GenCfg::small()
     }
@@ -67,6 +69,15 @@ pub fn case<G: CurveTag>(bytes: &[u8], col: &mut Collector, cfg: &GenCfg) -> Res
     if prog.owned {
         col.class("owned-transcript");
     }
+    if prog.pc != 0 {
+        col.class("custom-pedersen-bases");
+    }
+    if shape.cons1 + shape.cons2 > 256 {
+        col.class("more-than-256-constraints");
+    }
+    if shape.m > 64 {
+        col.class("more-than-64-commitments");
+    }
     if prog.party_cap > 1 {
         col.class("party-capacity>1");
     }
@@ -111,7 +122,7 @@ fn huge(curve: Curve, n: usize, col: &mut Collector) -> Result<(), Failure> {
         }
     }
     ops.push(Op::Closure(body));
-    let prog = Program { curve, tlabel: 0, pre: vec![], ops, owned: false, cap_p: Cap::Exact, cap_v: Cap::Exact, party_cap: 1, seed: n as u64 };
+    let prog = Program { curve, tlabel: 0, pre: vec![], ops, owned: false, cap_p: Cap::Exact, cap_v: Cap::Exact, party_cap: 1, seed: n as u64, pc: 0 };
     let p = with_curve!(curve, G => {
         let p = run_prover::<G>(&prog, &ProveOpts::default());
         if !p.model.satisfied() { return Ok(()); }
@@ -161,6 +172,10 @@ pub fn run(tier: &str, seed: u64) -> i32 {
         let subl = format!("c01/{}/large", c.name());
         let nl = super::scale(tier, 48, 400);
         rep.outcome.merge(search(&subl, seed, nl, 900, &|b, col| dispatch(&subl, b, col)));
+        // wide circuits: hundreds of constraints and commitments
+        let subw = format!("c01/{}/wide", c.name());
+        let nw = super::scale(tier, 24, 200);
+        rep.outcome.merge(search(&subw, seed, nw, 6000, &|b, col| dispatch(&subw, b, col)));
     }
     if tier == "thorough" && rep.outcome.found.is_empty() {
         // sizes around large powers of two (one circuit each, all three allocation paths, both phases)
@@ -174,7 +189,7 @@ pub fn run(tier: &str, seed: u64) -> i32 {
         rep.outcome.merge(o);
         rep.outcome.exhaustive = false;
     }
-    for c in ["zero-gates", "both-phases", "phase2-only", "half-open-end1", "commit-after-constrain", "capP-at-threshold", "capV-at-threshold", "owned-transcript", "pow2+1-gates", "single-alloc"] {
+    for c in ["zero-gates", "both-phases", "phase2-only", "half-open-end1", "commit-after-constrain", "capP-at-threshold", "capV-at-threshold", "owned-transcript", "pow2+1-gates", "single-alloc", "custom-pedersen-bases"] {
         rep.required_classes.push((c.to_string(), 0.02));
     }
     rep.finish()
